@@ -1,10 +1,11 @@
+import TplModel.Props.RenderProps
 import TplModel.Props.C05refine
 /-! # C07 — fragments: define is invisible, insert wraps, replace substitutes
 
-OBLIGATIONS: RN.exec_refines_ref, RN.execute_refines
+OBLIGATIONS: RN.exec_refines_ref, RN.execute_refines, RN.Props.define_emits_nothing, RN.Props.replace_substitutes, RN.Props.insert_wraps, RN.Props.insert_no_children, RN.Props.unknown_name_is_tplNotFound, RN.Props.fragment_gets_fresh_conditions, RN.Props.fragment_independent_of_nc, RN.Props.fragment_depth_bounded
 
 Fragments are executed by `RN.execFrag` on a fresh flag / condition state with the call-site scope; the refinement
 theorem covers them (hypothesis `TplOK`: every registered template has unique ids and sorted attributes, checked at
 run time by the driver for every loaded manager). The define/insert/replace corollaries on the specification are in
-Props/RenderProps when delivered; registry semantics (one namespace, duplicates rejected, order independence given
+Props/RenderProps (listed above); registry semantics (one namespace, duplicates rejected, order independence given
 distinct names) is `C19.templates_are_files_plus_defines`. -/
